@@ -87,6 +87,21 @@ def gen_cases(rng, tier):
     if regular_at_zero(node):
       rs.append(0.0)
     cases.append({"kind": "tree", "route": route, "node": node, "forms": forms, "tables": tables, "rs": sorted(set(rs))})
+  # mixed trees: one analytic leaf combined with a callable that offers no (or only a first) derivative -
+  # the class where the numerical fallback must stay local to the component that needs it
+  nm = 24 if tier == "quick" else 300
+  for i in range(nm):
+    op = ["sum", "product", "pow"][i % 3]
+    ana = spec.gen_node(rng, 1, "api", positive=(op == "pow"), kinds=["form", "sum", "product"], rmax=1.0)
+    num = spec.gen_py(rng, force=i % 2)
+    if op == "pow":
+      node = {"k": "pow", "a": [ana, {"k": "sum", "a": [num, {"k": "form", "name": "constant", "p": [0.0]}]}]} if False else {"k": "pow", "a": [ana, {"k": "py", "expr": ["*", ["num", 0.1], ["var", "r"]], "d1": None, "d2": None}]}
+    else:
+      node = {"k": op, "a": [ana, num] if i % 4 < 2 else [num, ana]}
+    if i % 5 == 0:
+      node = {"k": "ranges", "parts": [[">", 0.0, node], [">=", 7.5, spec.gen_form(rng, rmax=1.0)]]}
+    rs = [round(rng.uniform(0.3, 12.0), 3) for _ in range(6)]
+    cases.append({"kind": "tree", "route": "api", "node": node, "forms": [], "tables": [], "rs": sorted(set(rs)), "mixed": True})
   # per-form sweeps (incl. heavy ZBL at large r and r = 0 for regular forms)
   per = 4 if tier == "quick" else 40
   for name in ALLFORMS:
